@@ -445,6 +445,10 @@ func Bin(op string, a, b *Term) *Term {
 			return &Term{Op: OConst, C: constant.MakeBool(op == "=="), Typ: types.Typ[types.Bool]}
 		}
 		for _, pr := range [][2]*Term{{a, b}, {b, a}} {
+			// the address of a variable or of a fresh allocation is never nil
+			if isNilTerm(pr[0]) && pr[1].Op == OAddr && len(pr[1].Args) == 1 && (pr[1].Args[0].Op == OAlloc || pr[1].Args[0].Op == OGlobal) {
+				return &Term{Op: OConst, C: constant.MakeBool(op == "!="), Typ: types.Typ[types.Bool]}
+			}
 			if isNilTerm(pr[0]) && pr[1].Op == OGlobal && NonNilGlobal != nil && pr[1].Obj != nil && NonNilGlobal(pr[1].Obj) {
 				return &Term{Op: OConst, C: constant.MakeBool(op == "!="), Typ: types.Typ[types.Bool]}
 			}
